@@ -270,6 +270,10 @@ def apply_fault(ctx, tok, fault, alg, kind, enc, form, aad, stride=1, tag=""):
         if alg not in ("dir", "ECDH-ES", "ECDH-1PU"):
             return None
         n = ctx.choose(tag + "encrypted_key_octets", [1, 8, 24, 40])
+        if form == "general" and ctx.choose(tag + "entry", ["the recipient's own entry", "a second entry for the same recipient, appended"]) != "the recipient's own entry":
+            # the genuine entry stays as it is; a copy of it, carrying an encrypted key, follows it
+            tok.recipients.append({**copy.deepcopy(tok.recipients[0]), "ek": bytes(range(1, n + 1))})
+            return f"{n}-octet encrypted key in a direct mode, in a second entry appended for the same recipient", over
         tok.recipients[0]["ek"] = bytes(range(1, n + 1))
         return f"{n}-octet encrypted key in a direct mode", over
     if fault == "drop-encrypted-key":
